@@ -97,6 +97,15 @@ def run(eng, rep, tier):
                             (START(b), "walk-starts-at-start-other", "the start state (right)")):
         ob.decide("R1", "C02.3", walk, role, tag in rd, "the verdict depends on " + what,
                   "the verdict of the isomorphism walk does not depend on " + what, summ, site=site_of(prog, walk, walk.node))
+    ft = [ev for ev, _ in calls(summ, "is_final_state", own=True)]
+    for side, who in ((a, "self"), (b, "other")):
+        from .flow import may_be_element_of
+        ok = any(ev.recv is not None and side in ev.recv.alias and ev.args and may_be_element_of(ev.args[0], START(side))
+                 for ev in ft)
+        ob.decide("R1", "C02.3", walk, "start-pair-finality-compared-" + who, ok,
+                  "the finality comparison is applied to the popped pair, which includes the start pair",
+                  "the start states are never compared for finality (two automata that differ only in whether the empty "
+                  "word is accepted compare equal)", summ, site=site_of(prog, walk, walk.node))
     consts = set()
     for ev in summ.events:
         if ev.kind == "ret" and ev.value is not None and ev.value.has_const():
@@ -119,8 +128,36 @@ def run(eng, rep, tier):
                   or tag in _closure_ctrl(summ),
                   "refinement depends on " + role, "the partition refinement does not range over " + role, summ,
                   site=site_of(prog, fi, fi.node))
+    hopcroft_pending_rule(eng, ob, "C02.5")
     rep.stats.update(eng.stats())
     rep.floor = 25
+
+
+
+def hopcroft_pending_rule(eng, ob, oblig):
+    """Shared by C01 (minimize keeps the language) and C02 (minimize is reduced)."""
+    prog, interp = eng.prog, eng.interp
+    fi = prog.method("DeterministicFiniteAutomaton", "_get_partition")
+    summ = interp.run_entry(fi, DFA)
+    # Hopcroft with a pending-splitter list: when the class that was split is itself still pending, the new half must
+    # be queued as well (otherwise it is never used as a splitter).  An implementation that always queues both halves
+    # has no such test and holds trivially.
+    src = ast.unparse(fi.node)
+    inserts = [ev for ev, _ in calls(summ, "insert", own=True)]
+    contains = [ev for ev, _ in calls(summ, "contains", own=True)]
+    chooses_smaller = any(isinstance(c, ast.Compare) and "len(" in ast.unparse(c) and "part" in ast.unparse(c)
+                          for c in ast.walk(fi.node) if isinstance(c, ast.Compare) and len(c.ops) == 1
+                          and isinstance(c.ops[0], (ast.Lt, ast.Gt, ast.LtE, ast.GtE)) and "partition" in ast.unparse(c))
+    if chooses_smaller or contains:
+        under = [ev for ev in inserts if any(".contains(" in f[0] and f[1] for f in ev.facts)]
+        ob.decide("R1", oblig, fi, "pending-class-queues-new-half", bool(contains) and bool(under),
+                  "when the split class is pending in the splitter list the new half is queued too",
+                  "after a split only one half is queued even when the split class is still pending: the other half is "
+                  "never used as a splitter and distinguishable states stay merged", summ, site=site_of(prog, fi, fi.node))
+    else:
+        ob.decide("R1", oblig, fi, "pending-class-queues-new-half", bool(inserts),
+                  "both halves of a split are queued (no smaller-half optimisation)", "no splitter is ever queued", summ,
+                  site=site_of(prog, fi, fi.node))
 
 
 def _closure_ctrl(summ):
